@@ -534,7 +534,10 @@ func throughTicket(c *engine.Ctx, ms []rpac.ValidationInfo, evals *int64) {
 		for mi, v := range []rpac.ValidationInfo{ms[9], ms[len(ms)-1]} {
 			for _, variant := range []string{"valid", "bad-signature", "signed-with-other-key", "missing-client-info", "pac-decoding-off",
 				// damage that makes the PAC fail while its header / buffer table is read (before any signature is looked at)
-				"buffer-count-exceeds-data", "cut-inside-header", "cut-inside-buffer-table", "buffer-offset-beyond-data", "empty-pac"} {
+				"buffer-count-exceeds-data", "cut-inside-header", "cut-inside-buffer-table", "buffer-offset-beyond-data", "empty-pac",
+				// a keytab-principal override: ticket and PAC keys come from the override principal's entry, whatever the
+				// ticket's clear-text sname says (here a name the keytab does not hold)
+				"valid-under-override-unknown-sname", "bad-signature-under-override-unknown-sname"} {
 				key := svcKey
 				if variant == "signed-with-other-key" {
 					key = keyOf(et, c.Seed+5)
@@ -544,7 +547,7 @@ func throughTicket(c *engine.Ctx, ms []rpac.ValidationInfo, evals *int64) {
 					order = []uint32{rpac.TypeLogonInfo, rpac.TypeServerSig, rpac.TypeKDCSig}
 				}
 				b := build(v, p.CksumType, key, nil, order, c.Seed)
-				if variant == "bad-signature" {
+				if variant == "bad-signature" || variant == "bad-signature-under-override-unknown-sname" {
 					b.pac[b.srvSigOff] ^= 1
 				}
 				switch variant {
@@ -563,11 +566,18 @@ func throughTicket(c *engine.Ctx, ms []rpac.ValidationInfo, evals *int64) {
 				cs := apworld.Base(et)
 				cs.AuthzData = []krbmsg.AuthDataEntry{{Type: 1, Data: inner}}
 				cs.AuthzLabel = "pac:" + variant
+				override := strings.Contains(variant, "under-override")
+				if override {
+					cs.TktSName = []string{"HTTP", "nosuch.test.gokrb5"}
+				}
 				m, err := w.Mint(cs)
 				if err != nil {
 					engine.Fatal("mint: %v", err)
 				}
 				set := apworld.Settings{DecodePAC: variant != "pac-decoding-off"}
+				if override {
+					set.Override = apworld.Account
+				}
 				st := c01.ToServiceSettings(kt, set)
 				service.VerifResetReplayCache()
 				*evals++
@@ -601,12 +611,12 @@ func throughTicket(c *engine.Ctx, ms []rpac.ValidationInfo, evals *int64) {
 					c.Violate("ticket", "panic:through-ticket:"+variant, map[string]interface{}{"panic": pn}, rec)
 					continue
 				}
-				wantOK := variant == "valid" || variant == "pac-decoding-off"
+				wantOK := variant == "valid" || variant == "pac-decoding-off" || variant == "valid-under-override-unknown-sname"
 				if ok != wantOK {
 					c.Violate("ticket", fmt.Sprintf("through-ticket:%s:accepted=%v", variant, ok), map[string]interface{}{"err": fmt.Sprint(verr)}, rec)
 					continue
 				}
-				if variant == "valid" {
+				if variant == "valid" || variant == "valid-under-override-unknown-sname" {
 					if ad.eff != v.EffectiveName.Value || ad.full != v.FullName.Value || ad.uid != int(v.UserID) || ad.gid != int(v.PrimaryGroupID) || ad.dom != v.LogonDomainName.Value ||
 						ad.srv != v.LogonServer.Value || ad.domid != v.LogonDomainID.String() || strings.Join(ad.sids, ",") != strings.Join(v.GroupSIDs(), ",") {
 						c.Violate("ticket", "through-ticket:ad-credentials-differ", map[string]interface{}{"got": fmt.Sprintf("%+v", ad), "want_sids": v.GroupSIDs()}, rec)
